@@ -462,6 +462,31 @@ func analyzeAnyAdapters(p *load.Program, r *Roles, res *UnitResult, vi, ei int) 
 	}
 }
 
+// fieldCalledSomewhere: some function of the package other than a phase method reads field i of
+// the struct type (a hook the runner consults rather than a phase method; what it does with the
+// value is the business of the rules of that code).
+func fieldCalledSomewhere(p *load.Program, named *types.Named, i int) bool {
+	for _, fn := range p.AllFunctions() {
+		for _, b := range fn.Blocks {
+			for _, ins := range b.Instrs {
+				switch x := ins.(type) {
+				case *ssa.UnOp:
+					if fa, ok := x.X.(*ssa.FieldAddr); ok && fa.Field == i {
+						if pt, ok := fa.X.Type().Underlying().(*types.Pointer); ok && types.Identical(pt.Elem(), named) {
+							return true
+						}
+					}
+				case *ssa.Field:
+					if x.Field == i && types.Identical(x.X.Type(), named) {
+						return true
+					}
+				}
+			}
+		}
+	}
+	return false
+}
+
 // paramsIn returns the indexes of root parameters mentioned in t.
 func paramsIn(t *eng.Term) map[int]bool {
 	out := map[int]bool{}
@@ -660,7 +685,7 @@ func analyzeDelegators(p *load.Program, r *Roles, res *UnitResult) {
 			if _, isFn := st.Field(i).Type().Underlying().(*types.Signature); !isFn {
 				continue
 			}
-			used := usedFnFields[tn][i]
+			used := usedFnFields[tn][i] || fieldCalledSomewhere(p, named, i)
 			col.Check("C01.R6,C19.R8", tn+"."+st.Field(i).Name()+":used", used, p.Position(st.Field(i).Pos()), "no phase method of "+tn+" calls the function stored in field "+st.Field(i).Name()+": configuring it has no effect", nil)
 		}
 	}
